@@ -81,15 +81,16 @@ def align_shape(*polys: PolyLike) -> Tuple[ndpoly, ...]:
     """
     # return tuple(numpoly.broadcast_arrays(*polys))
     polys_ = [numpoly.aspolynomial(poly) for poly in polys]
-    common = numpy.ones(
-        numpy.broadcast_shapes(*[poly.shape for poly in polys_]), dtype=int
-    )
+    common = numpy.broadcast_shapes(*[poly.shape for poly in polys_])
 
     for idx, poly in enumerate(polys_):
-        if poly.shape != common.shape:
+        if poly.shape != common:
             polys_[idx] = poly.from_attributes(
                 exponents=poly.exponents,
-                coefficients=tuple(coeff * common for coeff in poly.coefficients),
+                coefficients=tuple(
+                    numpy.array(numpy.broadcast_to(coeff, common))
+                    for coeff in poly.coefficients
+                ),
                 names=poly.indeterminants,
             )
     return tuple(polys_)
